@@ -1,6 +1,7 @@
 (* C17 model driver.  One case per line:
-   kB temp tol tau damping dt tsf lower upper rlo rup width per P ctr same sub restart rx rv n {step x fb fba rnd running}*n
-   Output: "k m gamma sigma" then for every step " | err x_rep v_rep epot ekin ft fr f energy x_ext v_ext". *)
+   kB temp tol tau damping dt tsf lower upper rlo rup width per P ctr same sub restart rx rv it0 n {step x fb fba rnd running}*n
+   EVERY engine step is given (relative step numbers; it0 = absolute step of relative step 0); the model decides which are awake.
+   Output: "k m gamma sigma" then for every step " | err x_rep v_rep epot ekin ft fr f energy x_ext v_ext saved_x saved_v awake". *)
 open Model
 open X_fops
 let pi = 3.14159265358979323846
@@ -21,6 +22,7 @@ let () =
         let per = nb () in let pp = nf () in let ctr = nf () in
         let same = nb () in let sub = nb () in
         let restart = nb () in let rx = nf () in let rv = nf () in
+        let it0 = ni () in
         let n = ni () in
         let c = { c_kB = kB; c_temp = temp; c_tol = tol; c_tau = tau; c_damping = damping; c_dt = dt;
                   c_tsf = z_of_int tsf; c_lower = lower; c_upper = upper; c_refl_lo = rlo; c_refl_up = rup;
@@ -31,14 +33,16 @@ let () =
         let ins = List.init n (fun _ ->
           let st = ni () in let x = nf () in let fb = nf () in let fba = nf () in let rnd = nf () in let run = nb () in
           { i_step = z_of_int st; i_x = x; i_fb = fb; i_fba = fba; i_rnd = rnd; i_running = run }) in
-        let tr = trace fops c prm s0 ins in
+        let tr = mtrace fops c prm (z_of_int it0) s0 ins in
         let b = Buffer.create 1024 in
         Buffer.add_string b (Printf.sprintf "%s %s %s %s" (hex prm.p_k) (hex prm.p_m) (hex prm.p_gamma) (hex prm.p_sigma));
-        List.iter (fun s ->
+        List.iter2 (fun i s ->
           let xe = match s.s_x_ext with Some x -> x | None -> nan in
-          Buffer.add_string b (Printf.sprintf " | %d %s %s %s %s %s %s %s %s %s %s" (if s.s_err then 1 else 0)
+          let (sx, sv) = saved_xv fops s i.i_step in
+          Buffer.add_string b (Printf.sprintf " | %d %s %s %s %s %s %s %s %s %s %s %s %s %d" (if s.s_err then 1 else 0)
             (hex s.s_x_rep) (hex s.s_v_rep) (hex s.s_epot) (hex s.s_ekin) (hex s.s_ft_rep) (hex s.s_fr) (hex s.s_f)
-            (hex (reported_energy fops s)) (hex xe) (hex s.s_v_ext))) tr;
+            (hex (menergy fops c (z_of_int it0) i s)) (hex xe) (hex s.s_v_ext) (hex sx) (hex sv)
+            (if awake_at c (z_of_int it0) i then 1 else 0))) ins tr;
         print_endline (Buffer.contents b)
       end
     done
